@@ -165,17 +165,29 @@ func c17Oracle(r *e4Result) (msg string, judged int, laterConn int) {
 			laterConn++
 		}
 		tag := string(e.Pkt.Payload)
-		inForce := 0
+		// A Handle call X may be the one in force unless another call Y started after X had returned and
+		// itself returned before the message became readable (then X is definitely superseded). Calls
+		// that overlap each other, or that overlap the arrival of the message, can win either way.
+		inForce := 0 // some candidate had returned before the message became readable
 		acceptable := map[int]bool{}
-		for _, c := range calls {
-			if c.end < e.Seq {
-				inForce = c.n // the last Handle call that returned before the message became readable
-			} else if c.start < procBy {
-				acceptable[c.n] = true // registered concurrently with the arrival: old or new may get it
+		for _, x := range calls {
+			if x.start >= procBy {
+				continue
 			}
-		}
-		if inForce != 0 {
-			acceptable[inForce] = true
+			superseded := false
+			for _, y := range calls {
+				if y.start > x.end && y.end < e.Seq {
+					superseded = true
+					break
+				}
+			}
+			if superseded {
+				continue
+			}
+			acceptable[x.n] = true
+			if x.end < e.Seq {
+				inForce = x.n
+			}
 		}
 		got := handled[tag]
 		if len(acceptable) == 0 {
